@@ -127,14 +127,16 @@ func (backupManager *BackupManager) DoNativeBackup() error {
 		return err
 	}
 	backupFilename := backupManager.backupLocation + string(os.PathSeparator) + "datahub-backup.kv"
-	var file *os.File
-	if backupManager.fileExists(backupFilename) {
-		file, _ = os.Open(backupFilename)
-	} else {
-		file, _ = os.Create(backupFilename)
+	// incremental runs append to the existing backup file (os.Open would open it read-only and nothing would be written)
+	file, err := os.OpenFile(backupFilename, os.O_APPEND|os.O_CREATE|os.O_WRONLY, 0o644)
+	if err != nil {
+		return err
 	}
 	defer file.Close()
-	since, _ := backupManager.store.database.Backup(file, backupManager.lastID)
+	since, err := backupManager.store.database.Backup(file, backupManager.lastID)
+	if err != nil {
+		return err
+	}
 	backupManager.lastID = since
 
 	// store last id
@@ -153,7 +155,8 @@ func (backupManager *BackupManager) StoreLastID() error {
 }
 
 func (backupManager *BackupManager) LoadLastID() (uint64, error) {
-	lastIDFilename := backupManager.backupLocation + string(os.PathSeparator) + "datahub-backupManager.lastseen"
+	// must be the file StoreLastID writes
+	lastIDFilename := backupManager.backupLocation + string(os.PathSeparator) + "datahub-backup.lastseen"
 	file, err := os.Open(lastIDFilename)
 	if err != nil {
 		return 0, nil
